@@ -12,7 +12,10 @@ import copy
 import pickle
 
 from vlib.core import T, U
+from vlib.obs import ALL_FIELDS as _ALL
 from vlib.obs import exc_name, obs, safe
+import random as _random
+_half_rng = _random.Random(int(os.environ.get("VERIF_SEED", "0") or 0) * 31 + 7)
 
 _yarl = None
 
@@ -24,6 +27,14 @@ def setup(params):
 
 
 # ------------------------------------------------------------------ typed values (query values, ports)
+class _SubList(list):
+    pass
+
+
+class _SubTuple(tuple):
+    pass
+
+
 def pyval(tv):
     t = tv["t"]
     if t == "str":
@@ -39,9 +50,9 @@ def pyval(tv):
     if t == "bytes":
         return U(tv["s"]).encode("latin-1")
     if t == "list":
-        return [pyval(x) for x in tv["items"]]
+        return (_SubList if tv.get("sub") else list)([pyval(x) for x in tv["items"]])
     if t == "tuple":
-        return tuple(pyval(x) for x in tv["items"])
+        return (_SubTuple if tv.get("sub") else tuple)(pyval(x) for x in tv["items"])
     raise ValueError(t)
 
 
@@ -64,9 +75,9 @@ def tv_of(v):
     if isinstance(v, str):
         return tv_str(v)
     if isinstance(v, list):
-        return {"t": "list", "s": [], "items": [tv_of(x) for x in v]}
+        return dict({"t": "list", "s": [], "items": [tv_of(x) for x in v]}, **({"sub": True} if type(v) is not list else {}))
     if isinstance(v, tuple):
-        return {"t": "tuple", "s": [], "items": [tv_of(x) for x in v]}
+        return dict({"t": "tuple", "s": [], "items": [tv_of(x) for x in v]}, **({"sub": True} if type(v) is not tuple else {}))
     raise TypeError(v)
 
 
@@ -238,7 +249,14 @@ def run_prog(prog, fields=None, extras=()):
                 break
             rec["other"] = {"ok": obs(other, fields)}
         if u is not None:
-            rec["self"] = obs(u, fields)
+            if "self_twin" in extras:
+                # only a (seeded) random half of the accessors is read BEFORE the step, so that part of the receiver's lazily
+                # filled state is still open when the operation runs; afterwards everything is read, on it and on its twin
+                allf = list(fields) if fields else [f for f in _ALL if f != "val"]
+                half = _half_rng.sample(allf, max(1, len(allf) // 2))
+                rec["self"] = obs(u, half + ["val", "str"])
+            else:
+                rec["self"] = obs(u, fields)
         argobj = before = None
         if st["op"] in ("with_query", "extend_query", "update_query", "mod") and st["q"]["form"] not in ("none", "str"):
             a_, kw_ = qarg_py(st["q"])
@@ -285,6 +303,13 @@ def run_prog(prog, fields=None, extras=()):
                     rec["reparse"] = {"exc": exc_name(e)}
             else:
                 rec["reparse"] = {"exc": "str:" + s["exc"]}
+        if "self_twin" in extras and u is not None:
+            try:
+                t = pickle.loads(pickle.dumps(u))
+                rec["self_after"] = obs(u, fields)
+                rec["self_after_twin"] = {"ok": obs(t, fields), "eq": bool(t == u), "hash_eq": hash(t) == hash(u)}
+            except Exception as e:  # noqa: BLE001
+                rec["self_after_twin"] = {"exc": exc_name(e)}
         if "twin" in extras:
             tw = {}
             for name, f in (("pickle", lambda: pickle.loads(pickle.dumps(nu))),
